@@ -105,6 +105,20 @@ func Build(leaves []Hash, dup bool) *Tree {
 	return t
 }
 
+// Lift puts the tree below a path of further siblings: the withdrawals become one small corner of a much
+// larger tree whose other subtrees are only known by their hashes (what a claimant of a busy rollup sees).
+func (t *Tree) Lift(sibs []Hash) {
+	if len(t.Levels) == 0 {
+		return
+	}
+	for _, s := range sibs {
+		top := len(t.Levels) - 1
+		root := t.Levels[top][0]
+		t.Levels[top] = []Hash{root, s}
+		t.Levels = append(t.Levels, []Hash{Node(root, s)})
+	}
+}
+
 func (t *Tree) Root() Hash {
 	if len(t.Levels) == 0 {
 		return Hash{}
